@@ -433,8 +433,8 @@ FULL_MENU = ('none', 'rm self', 'rm next', 'rm prev', 'add next', 'add prev', 'd
 TIERS = {
     'quick': [
         ('history', dict(n=3, build=False, steps=3, orders=(0, 5))),
-        ('state', dict(n=3, build=True, steps=1)),
-        ('state', dict(n=3, build=True, steps=1, pre=(0, 1), menu=('none', 'rm next', 'disp'), shapes=(5,),
+        ('state', dict(n=3, build=True, steps=1, pre=(0, 1, 2, 3), shapes=(0, 5))),
+        ('state', dict(n=3, build=True, steps=1, pre=(1,), menu=('none', 'rm next', 'disp'), shapes=(5,),
                        flavours=(0, 1, 2, 3)), {'required': FLAVOUR_TAGS}),
         ('decor', dict(shape='chain3', nnames=2)),
         ('decor', dict(shape='siblings', nnames=2)),
@@ -455,7 +455,7 @@ TIERS = {
         ('decor', dict(shape='chain3', nnames=3)),
     ],
 }
-BUDGET_S = {'quick': 120, 'thorough': 1500}
+BUDGET_S = {'quick': 240, 'thorough': 1800}
 
 EXPLANATION = (
     'Bounded symbolic execution of the real EventDispatcher.add_handler / remove_handler / is_handler / dispatch '
@@ -470,8 +470,8 @@ RULE = ('one evaluation = one feasible path (distinct by construction); non-triv
         'listeners were served, or a decoration overrode / extended an inherited mapping')
 BOUNDS = {
     'quick': 'history: 3 handlers (classes HA, HB, HC(HA)), events e1,e2,unknown; H(3) from empty with 5 nested '
-             'actions, 3 argument shapes, listener order h0<h1<h2 and its reverse; I: 5 registration histories per '
-             'handler + 1 op with 5 nested actions, 3 shapes; nesting depth 2; I (2 histories) + 1 op with every handler '
+             'actions, 3 argument shapes, listener order h0<h1<h2 and its reverse; I: 4 registration histories per '
+             'handler + 1 op with 5 nested actions, 2 shapes; nesting depth 2; I (all registered) + 1 op with every handler '
              'instance plain / __bool__ False / __len__ 0 / __eq__ always True (4^3 combinations, 3 actions, 1 shape).  '
              'decor: chain of 3, siblings, two roots '
              'over 2 event names; chain of 2 over 3 names; 4 decoration kinds per (class, name)',
